@@ -37,12 +37,14 @@ THEOREMS = [
     'CpProofs.C03.C03_status_only_404_400',
     'CpProofs.C03.C03_request_roundtrip',
     'CpProofs.C03.C03_request_roundtrip_query_only',
+    'CpProofs.C03.C03_handler_sees_exactly',
     # the load-bearing lemmas
     'CpProofs.C03.query_unquote_styled',
     'CpProofs.C03.body_unquote_styled',
     'CpProofs.C03.pieces_joinSegs',
     'CpProofs.C03.rawPairs_bodyWire',
     'CpProofs.C03.processUrlencoded_eq',
+    'CpProofs.C03.parseQsPairs_eq',
     'CpProofs.C03.lookup_addAll',
     'CpProofs.C03.lookup_mergeBody',
     'CpProofs.C03.utf8_rt',
@@ -72,7 +74,9 @@ LEVEL_TEXT = ('Proved in Lean over the transcribed decoders, for every list of (
               'C03_body_roundtrip, C03_merge); only an exact N,M (1-18 digits) is image-map coordinates (imageMap_iff); the '
               'response is 404 iff the query string does not decode, 400 iff it does and no attempted charset decodes every '
               'key and value of the body, and an accepted body was decoded by one single charset as a whole '
-              '(C03_handle_cases, C03_all_or_nothing_*). Partial: UTF-16-BE, malformed escapes, raw non-UTF-8 query bytes '
+              '(C03_handle_cases, C03_all_or_nothing_*); for EVERY request whose handler is called, malformed or not, the '
+              'kwargs are a dict carrying per key exactly the completely decoded query values then body values '
+              '(C03_handler_sees_exactly). Partial: UTF-16-BE, malformed escapes, raw non-UTF-8 query bytes '
               'and declared-but-wrong charsets are modelled and compared with the real code (exhaustively on small scopes) '
               'but have no round-trip theorem; query_string_encoding is proved for ASCII-compatible codecs only.')
 LEVEL_NOTE = ('Trusted: Lean kernel (axioms propext, Classical.choice, Quot.sound only); the hand model '
@@ -1127,9 +1131,11 @@ def run(ctx):
     check_codecs(ctx, ctx.budget(600, 20000))
     check_units(ctx, small_strings(ctx.budget(5, 6)))
     check_units(ctx, small_strings(3, 'a%e9+='), enc='latin-1', attempts=('ascii', 'latin-1'))
+    check_units(ctx, small_strings(ctx.budget(4, 6), '%c3a9=&'))           # reaches %c3%a9 and its broken halves
     check_requests(ctx, list(small_requests(ctx.budget(3, 4))))
     ctx.extra['exhaustive_small_scope'] = ('all strings of length <= %d over {a %% 2 6 + & = ;} as query and as body '
-                                           '(units), length <= %d through WSGI; all %%X / %%XY items'
+                                           '(units; also over {%% c 3 a 9 = &} up to length 4 quick / 6 thorough), length <= %d through WSGI; '
+                                           'all %%X / %%XY items'
                                            % (ctx.budget(5, 6), ctx.budget(3, 4)))
     if ctx.quick():
         check_requests(ctx, gen_mixed(ctx.rng, 5000))
